@@ -61,3 +61,7 @@ Theorem C12_source_arithmetic_is_the_model (a : accum) :
   gen_st_inpaint_p S S2 n I == (100 * a_inp a) / a_n a /\ gen_st_minmax_ok = true /\ gen_st_var_clamped_at_zero = true.
 Proof. exact (tie_stats a). Qed.
 Print Assumptions C12_source_arithmetic_is_the_model.
+Theorem C12_source_block_sums_are_the_model (thresh : option Q) (tile : list Q) :
+  a_sum (tile_accum thresh tile) = qsum gen_st_term_sum tile /\ a_sum2 (tile_accum thresh tile) = qsum gen_st_term_sum2 tile /\
+  gen_st_block_ok = true /\ gen_st_inpaint_is_strictly_below = true /\ gen_st_inpaint_bands_ok = true /\ gen_st_accumulate_ok = true.
+Proof. exact (stats_block_sums_tied thresh tile). Qed.
